@@ -5,6 +5,11 @@ import json, subprocess
 HOOK_COMMITS = ["e830588", "a6f2056", "d667224"]
 
 CHECKS = {
+ "C20": dict(
+  technique="runtime differential monitor: unified analyzer vs the protocol analyzers packet by packet under a shared virtual clock, and configuration-lattice masking check",
+  text="Exploration: 12k (quick) / 300k (thorough) seeded traces with injected hostile frames; every packet that all protocol analyzers accept is compared field by field (raw signature parts, endpoints, labels and quality bit patterns) between HuginnNet::analyze_tcp and the TCP / HTTP / stateless TLS analyzers, for the 16 switch combinations with and without a database (quick rotates half of the non-default configurations per trace). Held = ~3.5e6 judged packet/configuration pairs (quick) without a difference.",
+  note="Needs hooks H1/H3. Packets rejected by some analyzer are not compared; diagnosis not judged when matching is off.",
+  design="6 C20"),
  "C18": dict(
   technique="runtime monitors: metamorphic check of the shard hash functions + offline history checker (exactly-once, no-processing-after-drop, counter conservation, affinity) over the hook event log under concurrent dispatchers",
   text="Exploration: (a) 30k (quick) / 1M (thorough) seeded identities x 3 pools x 9 worker counts x 6 identity-preserving variants (payload, flags, seq/ack, window, TTL, ID, TOS, IP options incl. IHL<5, TCP options, total length, framing) plus garbage/truncated frames; (b) 1.6k (quick) / 40k (thorough) pool runs with 1..8 dispatcher threads, queue sizes 0..1024, 40..300 unique frames each, perturbation at hook points; the recorded history must show exactly-once processing of queued frames, none of dropped ones, one worker per identity, and statistics equal to the outcomes returned. Held = no history violated the rules (one listed known finding about the HTTP per-worker drop counter).",
